@@ -1064,6 +1064,21 @@ func (st *State) heldR(k string) string {
 func (x *Exec) lockOp(fr *Frame, st *State, in ssa.Instruction, op string, recv Val) {
 	k := lockKeyOf(recv)
 	lbl := x.label(fr.fn, in, "call")
+	if op == "lock" || op == "rlock" {
+		// `opt atomic=<lock>` on the function under contract: everything it does under a lock happens in ONE critical section of that
+		// lock (check-then-act must not be split over two acquisitions: between them other threads run).  Acquisitions inside inlined
+		// callees count.  A design rule, opt-in per function; it is the reduction criterion for atomicity.
+		root := fr
+		for root.parent != nil {
+			root = root.parent
+		}
+		if root.con != nil && root.con.Opts["atomic"] != "" {
+			if st.held["A:"+k] == "1" {
+				x.emit(fr, st, lbl+".second-critical-section", "atomic", atom("false"), in)
+			}
+			st.held["A:"+k] = "1"
+		}
+	}
 	switch op {
 	case "lock":
 		x.check(fr, st, lbl+".pre[!held]", "lock", sNot(sOr(st.heldW(k), st.heldR(k))), in)
